@@ -260,8 +260,8 @@ def _tlc_view(t):
     return {"ev": [{k: v for k, v in e.items() if k in keep} for e in t["ev"]]}
 
 
-def validate(ctx, traces):
-    from . import c14
+def _tlc_validate(ctx, traces, label):
+    """one batched TLC run of Trace_Jakes.tla -> {trace number (1-based): first mismatch}"""
     fd, path = tempfile.mkstemp(prefix="c14-traces-", suffix=".json", dir=tlc.WORK if os.path.isdir(tlc.WORK) else None)
     with os.fdopen(fd, "w") as f:
         json.dump([_tlc_view(t) for t in traces], f)
@@ -270,7 +270,7 @@ def validate(ctx, traces):
         r = tlc.run(TRACE_MODULE, cfg, defs=defs, env={"TRACE_FILE": path}, continue_=True, workers=1)
     finally:
         os.unlink(path)
-    ctx.account(r, TRACE_MODULE, "recorded traces", expect_violation=r.violated if r.violated == "Conforms" else None)
+    ctx.account(r, TRACE_MODULE, label, expect_violation=r.violated if r.violated == "Conforms" else None)
     want_states = sum(len(t["ev"]) + 1 for t in traces)
     bad = {}
     for m in r.emitted:
@@ -279,6 +279,37 @@ def validate(ctx, traces):
         raise tlc.TlcError("Trace_Jakes: Conforms violated but no mismatch was emitted")
     if not bad and r.distinct < want_states:
         raise tlc.TlcError(f"Trace_Jakes explored {r.distinct} states, the traces have {want_states}")
+    return bad
+
+
+def negative_control(ctx, traces, bad):
+    """the binding is live: ONE logged value of one conforming trace is corrupted - the identified index of the
+    first sample of a generated block moved by one sample - and TLC must reject exactly that event"""
+    for i, t in enumerate(traces):
+        if (i + 1) in bad or len(t["ev"]) > 16:
+            continue
+        for k, e in enumerate(t["ev"]):
+            if e["op"] == "gen" and not e["raised"] and e["first"][0] >= 0:
+                c = json.loads(json.dumps(t))
+                c["ev"][k]["first"] = [e["first"][0], e["first"][1] + 1]
+                got = _tlc_validate(ctx, [c], "negative control (one corrupted sample index)").get(1)
+                if not got or int(got["ev"]) != k + 1 or got["field"] != "first":
+                    raise tlc.TlcError(f"trace validation did not report a corrupted first-sample index (event {k + 1} of "
+                                       f"trace {t['id']}: {e['first']} -> {c['ev'][k]['first']}); TLC said {got} "
+                                       f"(binding not live)")
+                ctx.notes["trace_negative_control"] = (f"first-sample index of event {k + 1} (gen {e['n']}) of trace {t['id']} "
+                                                       f"moved from {e['first']} to {c['ev'][k]['first']}: rejected "
+                                                       f"(field 'first')")
+                return
+    if traces and len(bad) < len(traces):
+        raise tlc.TlcError("no conforming trace with an identified generation event for the negative control")
+
+
+def validate(ctx, traces, control=True):
+    from . import c14
+    bad = _tlc_validate(ctx, traces, "recorded traces")
+    if control:
+        negative_control(ctx, traces, bad)
     nev = 0
     for i, t in enumerate(traces):
         m = bad.get(i + 1)
@@ -312,4 +343,4 @@ def validate(ctx, traces):
 
 def replay(ctx, c):
     t = record_one(c["job"])
-    validate(ctx, [t])
+    validate(ctx, [t], control=False)
